@@ -280,10 +280,37 @@ func meshes3(r *vlib.Run) {
 			c.Undecided("mesh:generator-produced-no-faces")
 			return
 		}
+		// The faces handed to the library may have some or all orientations reversed: distance,
+		// nearest point and the even-odd sign do not depend on the winding of the faces (the sign is
+		// documented to come from ray parity), so the reference keeps using the oriented original ts.
+		lts := ts
+		reoriented := ""
+		if mc.kind != "soup" && rng.Intn(4) == 0 {
+			lts = append([]g.Tri{}, ts...)
+			switch rng.Intn(3) {
+			case 0:
+				reoriented = "all-faces-reversed"
+				for i, t := range lts {
+					lts[i] = g.Tri{t[0], t[2], t[1]}
+				}
+			case 1:
+				reoriented = "one-face-reversed"
+				i := rng.Intn(len(lts))
+				lts[i] = g.Tri{lts[i][0], lts[i][2], lts[i][1]}
+			default:
+				reoriented = "random-faces-reversed"
+				for i, t := range lts {
+					if rng.Intn(2) == 0 {
+						lts[i] = g.Tri{t[0], t[2], t[1]}
+					}
+				}
+			}
+			c.Count("mesh3d.reoriented."+reoriented, 1)
+		}
 		// library object
 		faces := make([]*model3d.Triangle, len(ts))
 		index := map[*model3d.Triangle]int{}
-		for i, t := range ts {
+		for i, t := range lts {
 			faces[i] = &model3d.Triangle{t[0], t[1], t[2]}
 			index[faces[i]] = i
 		}
@@ -312,13 +339,13 @@ func meshes3(r *vlib.Run) {
 		if mc.closed {
 			c.Count("mesh3d.closed_oriented", 1)
 		}
-		outward := mc.closed && vlib.SignedVolume(ts) > 0
+		outward := mc.closed && vlib.SignedVolume(ts) > 0 && reoriented == ""
 		wit := func(p C3, more map[string]interface{}) map[string]interface{} {
-			w := map[string]interface{}{"mesh": mc.kind, "faces": len(ts), "constructor": ctor, "query_hex": hx(p), "query": dec(p), "bounds": dec(lo) + " " + dec(hi),
+			w := map[string]interface{}{"mesh": mc.kind, "faces": len(ts), "constructor": ctor, "faces_reoriented": reoriented, "query_hex": hx(p), "query": dec(p), "bounds": dec(lo) + " " + dec(hi),
 				"replay_note": "the mesh is regenerated from (seed, section, index)"}
 			if len(ts) <= 12 {
 				var fs []string
-				for _, t := range ts {
+				for _, t := range lts {
 					fs = append(fs, hx(t[0])+hx(t[1])+hx(t[2]))
 				}
 				w["face_list_hex"] = fs
@@ -380,6 +407,9 @@ func meshes3(r *vlib.Run) {
 							if inside {
 								c.Count("mesh3d.SDF.sign_ok_inside", 1)
 							}
+							if reoriented != "" {
+								c.Count("mesh3d.SDF.sign_ok_on_reoriented_mesh", 1)
+							}
 						}
 					}
 				}
@@ -434,7 +464,7 @@ func meshes3(r *vlib.Run) {
 				if !smooth {
 					c.Undecided("mesh-normal:nearest-point-not-stably-inside-one-face")
 				} else {
-					want := g.TriNormal(ts[nb.Face])
+					want := g.TriNormal(lts[nb.Face])
 					if d := g.Len3(g.Sub3(n, want)); d > normalTol {
 						c.Violation(api+".NormalSDF/normal-of-nearest-face", fmt.Sprintf("normal %v differs from the right-hand normal %v of the unique nearest face %d by %.3g", n, want, nb.Face, d), wit(p, map[string]interface{}{"nearest_face": nb.Face}))
 					} else {
